@@ -102,6 +102,66 @@ func addLibIntrinsics(m map[string]intrinsicFn) {
 	}
 	m["time.Now"] = func(fr *frame, a []value) value { return fr.p.zero(fr.fn.Signature.Results().At(0).Type()) }
 	m[apiName("SetUntil")] = func(fr *frame, a []value) value { fr.p.ghost["until"] = a[0]; return nil }
+	// http.ServeMux: contract = exact match of the request path against the
+	// registered patterns (pattern syntax, redirects and host matching are net/http's)
+	muxHandle := func(fr *frame, a []value) value {
+		p := fr.p
+		key := fmt.Sprintf("mux:%p", a[0].(*value))
+		lst, _ := p.ghost[key].([]value)
+		for _, e := range lst {
+			if p.branch(p.equals(nil, e.(tuple)[0], a[1])) {
+				panic(targetPanic{iface{t: types.Typ[types.String], v: Str{s: "http: multiple registrations for pattern"}}, fr.callpos, fr.stack()})
+			}
+		}
+		p.ghost[key] = append(lst, tuple{a[1], a[2]})
+		return nil
+	}
+	m["(*net/http.ServeMux).HandleFunc"] = muxHandle
+	m["(*net/http.ServeMux).ServeHTTP"] = func(fr *frame, a []value) value {
+		p := fr.p
+		key := fmt.Sprintf("mux:%p", a[0].(*value))
+		lst, _ := p.ghost[key].([]value)
+		req := a[2].(*value)
+		rs := (*req).(structure)
+		rt := deref(fr.fn.Signature.Params().At(1).Type()).Underlying().(*types.Struct)
+		var urlPtr *value
+		for i := 0; i < rt.NumFields(); i++ {
+			if rt.Field(i).Name() == "URL" {
+				urlPtr = rs[i].(*value)
+			}
+		}
+		if urlPtr == nil {
+			panic(runtimePanic{"invalid memory address or nil pointer dereference (request without URL)"})
+		}
+		ut := p.eng.prog.ImportedPackage("net/url").Type("URL").Type().Underlying().(*types.Struct)
+		var pathV value
+		for i := 0; i < ut.NumFields(); i++ {
+			if ut.Field(i).Name() == "Path" {
+				pathV = (*urlPtr).(structure)[i]
+			}
+		}
+		for _, e := range lst {
+			if p.branch(p.equals(nil, e.(tuple)[0], pathV)) {
+				p.call(fr, fr.callpos, e.(tuple)[1], []value{a[1], a[2]})
+				return nil
+			}
+		}
+		nf := p.eng.prog.ImportedPackage("net/http").Func("NotFound")
+		p.call(fr, fr.callpos, nf, []value{a[1], a[2]})
+		return nil
+	}
+	// strings.Builder: String() is unsafe.String over the buffer
+	m["(*strings.Builder).String"] = func(fr *frame, a []value) value {
+		p := fr.p
+		st := (*a[0].(*value)).(structure)
+		buf := st[len(st)-1].([]value)
+		ts := make([]*Term, len(buf))
+		for i, b := range buf {
+			ts[i] = b.(*Term)
+		}
+		return p.mkStr(ts)
+	}
+	m["(*strings.Builder).copyCheck"] = func(fr *frame, a []value) value { return nil }
 	// sync.Pool: no pooling, always a fresh value
 	m["(*sync.Pool).Get"] = func(fr *frame, a []value) value {
 		p := fr.p
